@@ -18,6 +18,17 @@ times in a row against a stale link that nobody touched during those attempts;
 simulated clock) must hold the lock within LONE_BUDGET attempts once every other
 process has finished or died; (3) after the run each surviving process returns
 alone with its used object, then a fresh contender with a fresh object.
+
+Optional families (one tape draw, 0 = none): a holder forks and the child first
+calls unlock() on the inherited object and may then contend with it; a few
+intercepted calls fail with a transient OS error (EIO/EACCES, kill: EPERM)
+instead of being carried out - inside lock() the attempt then ends with that
+error and counts for nothing, inside the holder's unlock() the holder still
+holds and calls unlock() again until a call that met no injected error either
+releases or is a violation; a holder may release through another lock object
+for the same path.  The trace names link contents abstractly (a pid of the
+simulation or one fixed word), so a run is replayable whatever identity the
+code under test writes.
 """
 import copy
 import errno
@@ -36,10 +47,13 @@ QUICK_RUNS = 4000
 BATCH = 60
 COMPONENTS = {"real": ["twisted.python.lockfile.FilesystemLock.lock/unlock", "twisted.python.lockfile.isLocked",
                        "twisted.internet.defer.DeferredFilesystemLock.deferUntilLocked (polling waiter, no timeout)"],
-              "stub": ["symlink/readlink/remove/kill/getpid (in-memory link + process tables, atomic per call)", "process scheduling (baton threads, tape-chosen)",
+              "stub": ["symlink/readlink/remove/kill/getpid (in-memory link + process tables, atomic per call; optional injected EIO/EACCES/EPERM)", "process scheduling (baton threads, tape-chosen)",
                        "each polling waiter's IReactorTime (detsim SimClock, advanced one interval per poll)"]}
 RULE = ("run = 2..4 simulated processes each doing 1..3 rounds of lock -> critical section -> unlock on one path, interleaved at every intercepted call; "
-        "optional initial stale link, optional death of a holder inside its critical section, optional fork of a holder whose child calls unlock() on the inherited lock object; "
+        "optional initial stale link, optional death of a holder inside its critical section, optional fork of a holder whose child calls unlock() on the inherited lock object "
+        "and then, in half of the cases, contends for the lock with that object; optional transient OS errors (1..3 per run, each intercepted call of a lock() or unlock() fails with p=0.2 "
+        "with EIO/EACCES, kill with EPERM, instead of being carried out): a lock() ended by one is an attempt without answer, a holder whose unlock() met one still holds and calls unlock() "
+        "again (other processes run in between); optionally a holder releases through another FilesystemLock object for the same path; "
         "each process reuses one lock object for every attempt; in runs with holder deaths each process draws how it waits: bounded (6 attempts per round), persistent (lock() until it succeeds) "
         "or deferred (DeferredFilesystemLock.deferUntilLocked() polling once per interval on its own simulated clock), so that an owner can die between two attempts of the same waiter; "
         "after the run the survivors come back alone one by one (tape-chosen order) with their used objects, then a fresh contender; "
@@ -47,7 +61,12 @@ RULE = ("run = 2..4 simulated processes each doing 1..3 rounds of lock -> critic
 ASSUMPTIONS = ["symlink() is atomic create-or-EEXIST; readlink/remove/kill are atomic individually", "pids are not reused during a run",
                "'eventually' is read in bounded form: 3 attempts in a row of one waiter against a stale link nobody else touched, 3 attempts of a waiter that is the only process left, "
                "1 attempt of a process that comes back alone after the run; a run that uses up its 20000-step budget gives no verdict (the statement does not bound contention)",
-               "a process that dies does so inside its critical section (never in the middle of lock()/unlock())"]
+               "a process that dies does so inside its critical section (never in the middle of lock()/unlock())",
+               "an injected OS error replaces the call (nothing is created or removed by a call that fails); lock() calls made from a timer (deferUntilLocked) are never faulted - "
+               "what the reactor does with an exception from a timed call is outside the statement; lock attempts ended by an injected error count for no liveness budget",
+               "'a holder can always release it' is read per process, as unlock() documents it (ValueError only for a lock 'not owned by this process'): the holder's unlock() call that meets "
+               "no injected error must release, whatever earlier unlock() calls of the same holder met and whichever lock object for the path it is called on",
+               "all simulated processes share the one imported lockfile module (as processes forked from a common parent after the import do)"]
 
 NAME = "/locks/the.lock"
 
@@ -67,6 +86,37 @@ class World:
         self.foreign_unlock = None  # (pid, owner): an unlock() removed a live owner's link
         self.link_gen = 0      # bumped whenever the link is created or removed
         self.saw_alive = {}    # pid -> the owner its latest kill(0) reported as running (lock() then returned False)
+        self.known = {99}      # every pid the simulation has ever handed out (plus the initial stale owner)
+        # transient OS errors (family "oserr"): while oserr_left > 0 an intercepted call may fail with EIO/EACCES (kill: EPERM)
+        # INSTEAD of being carried out; injected[pid] counts the errors injected into pid's current lock()/unlock() call
+        self.oserr_left = 0
+        self.oserr_exempt = set()  # pids whose lock() calls are never faulted (waiters polling from a timer)
+        self.injected = {}
+
+    def pname(self, v):
+        """Abstract name of whatever a link names: a pid of the simulation, or a fixed word for anything else (a value
+        the code under test got from outside the interposed calls must not leak into the trace)."""
+        try:
+            v = int(v)
+        except (TypeError, ValueError):
+            return "not-a-pid"
+        return str(v) if v in self.known else "pid-unknown-to-the-simulation"
+
+    def maybe_fault(self, op):
+        if self.oserr_left <= 0:
+            return
+        me = self.pid()
+        inside = "lock" if me in self.in_lock else "unlock"
+        if inside == "lock" and me in self.oserr_exempt:
+            return
+        if not self.sim.draw_bool(0.2, "oserr"):
+            return
+        self.oserr_left -= 1
+        en = errno.EPERM if op == "kill" else self.sim.draw_choice([errno.EIO, errno.EACCES], "errno")
+        self.injected[me] = self.injected.get(me, 0) + 1
+        self.sim.fault("oserror_%s_in_%s" % (op, inside))
+        self.sim.event(me, op, "INJECTED", errno.errorcode[en])
+        raise OSError(en, "injected " + errno.errorcode[en])
 
     def stale_owner(self):
         """The dead pid the link names, or None (no link / owner running)."""
@@ -80,6 +130,7 @@ class World:
     # interposed module-level functions
     def symlink(self, value, filename):
         self.sched.point("symlink")
+        self.maybe_fault("symlink")
         if filename in self.links:
             self.eexist += 1
             self.sim.event(self.pid(), "symlink", "EEXIST")
@@ -90,14 +141,16 @@ class World:
 
     def readlink(self, filename):
         self.sched.point("readlink")
+        self.maybe_fault("readlink")
         if filename not in self.links:
             self.sim.event(self.pid(), "readlink", "ENOENT")
             raise OSError(errno.ENOENT, "No such file or directory")
-        self.sim.event(self.pid(), "readlink", self.links[filename])
+        self.sim.event(self.pid(), "readlink", self.pname(self.links[filename]))
         return self.links[filename]
 
     def rmlink(self, filename):
         self.sched.point("rmlink")
+        self.maybe_fault("rmlink")
         if filename not in self.links:
             self.sim.event(self.pid(), "rmlink", "ENOENT")
             raise OSError(errno.ENOENT, "No such file or directory")
@@ -109,15 +162,15 @@ class World:
                 # link another breaker has meanwhile replaced with its own (the listed known finding)
                 self.race = True
                 self.sim.probe("breaker_removed_live_link")
-                self.sim.event(me, "rmlink", "REMOVES-LIVE-LINK-OF", owner)
+                self.sim.event(me, "rmlink", "REMOVES-LIVE-LINK-OF", self.pname(owner))
             elif owner in self.alive:
-                self.sim.event(me, "rmlink", "removes-live-link-without-stale-check", owner)
+                self.sim.event(me, "rmlink", "removes-live-link-without-stale-check", self.pname(owner))
             else:
                 self.broke_stale += 1
                 self.sim.probe("stale_lock_broken")
-                self.sim.event(me, "rmlink", "stale", owner)
+                self.sim.event(me, "rmlink", "stale", self.pname(owner))
         else:
-            self.sim.event(me, "rmlink", "own" if owner == me else "other:%d" % owner)
+            self.sim.event(me, "rmlink", "own" if owner == me else "other:" + self.pname(owner))
             if owner != me and owner in self.alive:
                 # unlock() by a process that does not own the link (e.g. a forked child cleaning up an inherited lock object)
                 self.foreign_unlock = (me, owner)
@@ -126,12 +179,13 @@ class World:
 
     def kill(self, pid, sig):
         self.sched.point("kill")
+        self.maybe_fault("kill")
         if pid not in self.alive:
             self.esrch[self.pid()] = pid
-            self.sim.event(self.pid(), "kill", pid, "ESRCH")
+            self.sim.event(self.pid(), "kill", self.pname(pid), "ESRCH")
             raise OSError(errno.ESRCH, "No such process")
         self.saw_alive[self.pid()] = pid
-        self.sim.event(self.pid(), "kill", pid, "alive")
+        self.sim.event(self.pid(), "kill", self.pname(pid), "alive")
 
 
 class _OS:
@@ -155,7 +209,13 @@ def run(sim):
     stale_initial = sim.draw_bool(0.5, "stale_initial")
     deaths = sim.draw_bool(0.35, "deaths")
     rounds = sim.draw_int(1, 3, "rounds")
-    forks = sim.draw_bool(0.25, "forks")
+    # optional families, one draw (index 0 = none, index 1 = forks only): "forks" = a holder forks and the child uses the
+    # inherited lock object; "oserr" = a few intercepted calls fail with a transient OS error instead of being carried out,
+    # inside lock() and inside unlock(), and the caller tries again; "altobj" = a holder may release through another
+    # FilesystemLock object for the same path (ownership is per process: unlock() refuses only locks "not owned by this process")
+    extras = sim.draw_weighted([((), 8), (("forks",), 3), (("oserr",), 4), (("forks", "oserr"), 2), (("altobj",), 1),
+                                (("oserr", "altobj"), 1), (("forks", "oserr", "altobj"), 1)], "extras")
+    forks, oserr, altobj = "forks" in extras, "oserr" in extras, "altobj" in extras
     # how each process waits for a lock it did not get (always with the SAME lock object): "bounded" = up to 6 attempts
     # per round, then it gives the round up; "persistent" = it keeps calling lock() until it holds the lock;
     # "deferred" = DeferredFilesystemLock.deferUntilLocked() polling once per interval on the process's own simulated
@@ -165,9 +225,11 @@ def run(sim):
     styles = ["bounded"] * nproc
     if deaths:
         styles = [sim.draw_weighted([("bounded", 2), ("persistent", 1), ("deferred", 1)], "style") for _ in range(nproc)]
-    sim.config = {"nproc": nproc, "stale_initial": stale_initial, "deaths": deaths, "rounds": rounds, "forks": forks, "styles": styles}
+    sim.config = {"nproc": nproc, "stale_initial": stale_initial, "deaths": deaths, "rounds": rounds, "forks": forks, "styles": styles, "oserr": oserr, "altobj": altobj}
     sched = T.Scheduler(sim)
     w = World(sim, sched)
+    if oserr:
+        w.oserr_left = sim.draw_int(1, 3, "oserr_budget")
     saved = {n: getattr(lockfile, n) for n in ("symlink", "readlink", "rmlink", "kill", "os")}
     lockfile.symlink, lockfile.readlink, lockfile.rmlink, lockfile.kill = w.symlink, w.readlink, w.rmlink, w.kill
     lockfile.os = _OS(w)
@@ -176,6 +238,7 @@ def run(sim):
     objs = {}        # pid -> the lock object the process used throughout
     stale_fails = {} # pid -> consecutive failed attempts against an untouched stale link
     finished = []    # pids whose process ran to its end without dying
+    faulted = set()  # pids whose latest lock() attempt was ended by an injected OS error (it does not count for any budget)
 
     def clause(name):
         # violations that follow a breaker removing a live holder's link are the listed known finding
@@ -183,7 +246,33 @@ def run(sim):
 
     nchild = [0]
 
+    def exclusive():
+        c, wit = clause("mutual-exclusion")
+        sim.check(c, len(holders) == 1, wit or "two-holders", lambda: "processes %r are all between lock()==True and unlock()" % (holders,))
+
+    def release(pid, lk):
+        """The holder pid releases.  unlock() may fail with an OS error that was injected into THIS call (the holder still
+        holds then and simply tries again, others run in between); any other failure is the holder being unable to release."""
+        while True:
+            other = altobj and sim.draw_bool(0.5, "release_through_another_object")
+            if other:
+                sim.probe("holder_releases_through_another_object")
+            w.injected.pop(pid, None)
+            try:
+                (lockfile.FilesystemLock(NAME) if other else lk).unlock()
+                return
+            except Exception as e:
+                if isinstance(e, OSError) and w.injected.get(pid):
+                    sim.probe("holder_retries_unlock_after_oserror")
+                    sim.event(pid, "UNLOCK-FAILED-RETRYING")
+                    sched.point("retry-unlock")
+                    exclusive()
+                    continue
+                c, wit = clause("holder-unlock-raised")
+                sim.fail(c, wit or (("through-another-object-for-the-path:" if other else "") + type(e).__name__), "unlock() by the holder %d raised %r" % (pid, e))
+
     def child(cpid, inherited):
+        w.injected.pop(cpid, None)
         try:
             inherited.unlock()
             outcome = "returned"
@@ -192,6 +281,19 @@ def run(sim):
         sim.event(cpid, "CHILD-UNLOCK", outcome)
         c, wit = clause("non-holder-unlock-removed-live-link")
         sim.check(c, w.foreign_unlock is None, wit or "forked-child", lambda: "unlock() in process %d removed the link of live holder %d (unlock %s)" % (w.foreign_unlock + (outcome,)))
+        if sim.draw_bool(0.5, "child_contends"):
+            # the child goes on to contend for the lock itself, with the inherited object (whose flags say "locked")
+            sim.probe("forked_child_contends_with_inherited_object")
+            if attempt(cpid, inherited.lock):
+                sim.probe("forked_child_acquired")
+                holders.append(cpid)
+                sim.event(cpid, "ACQUIRED", "clean" if inherited.clean else "unclean")
+                exclusive()
+                sched.point("critical-section")
+                exclusive()
+                release(cpid, inherited)
+                holders.remove(cpid)
+                sim.event(cpid, "RELEASED")
         w.alive.discard(cpid)
 
     def attempt(pid, fn):
@@ -203,10 +305,17 @@ def run(sim):
         gen0, stale0 = w.link_gen, w.stale_owner()
         w.in_lock.add(pid)
         w.esrch.pop(pid, None)
+        w.injected.pop(pid, None)
+        faulted.discard(pid)
         try:
             try:
                 got = fn()
             except OSError as e:
+                if w.injected.get(pid):
+                    # lock() passes on an OS error it cannot interpret: the attempt gave no answer (neither held nor refused)
+                    sim.probe("lock_attempt_ended_by_injected_oserror")
+                    faulted.add(pid)
+                    return False
                 c, wit = clause("lock-raised")
                 sim.fail(c, wit or type(e).__name__, "lock() raised %r" % (e,))
         finally:
@@ -236,8 +345,9 @@ def run(sim):
         lone = 0
         polls = 0
         while True:
-            lone += 1 if others_done() else 0
-            if lone == 1:
+            alone = others_done()
+            lone += 1 if alone else 0
+            if lone == 1 and alone:
                 sim.probe("waiter_alone_budget_started")
             if style == "persistent":
                 got = attempt(pid, lk.lock)
@@ -254,6 +364,8 @@ def run(sim):
             polls += 1
             if got:
                 return True
+            if pid in faulted and alone:
+                lone -= 1
             sim.probe("persistent_waiter_polls_again" if style == "persistent" else "deferred_waiter_polls_again")
             if lone >= LONE_BUDGET:
                 c, wit = clause("stale-lock-eventually-acquired")
@@ -267,6 +379,7 @@ def run(sim):
         if style == "deferred":
             clk = SimClock()
             lk = defer.DeferredFilesystemLock(NAME, scheduler=clk)
+            w.oserr_exempt.add(pid)  # its lock() runs from a timer: an OS error there is the reactor's business, not the statement's
         else:
             lk = lockfile.FilesystemLock(NAME)
         objs[pid] = lk
@@ -285,36 +398,30 @@ def run(sim):
             stats["acquired"] += 1
             holders.append(pid)
             sim.event(pid, "ACQUIRED", "clean" if lk.clean else "unclean")
-            c, wit = clause("mutual-exclusion")
-            sim.check(c, len(holders) == 1, wit or "two-holders", lambda: "processes %r are all between lock()==True and unlock()" % (holders,))
+            exclusive()
             for _ in range(sim.draw_int(0, 2, "cs")):
                 sched.point("critical-section")
-                c, wit = clause("mutual-exclusion")
-                sim.check(c, len(holders) == 1, wit or "two-holders", lambda: "processes %r are all between lock()==True and unlock()" % (holders,))
+                exclusive()
             if forks and sim.draw_bool(0.4, "fork"):
                 # the holder forks; the child inherits a copy of the lock object (locked flag set) and releases its inherited
                 # resources: its unlock() is a non-holder's unlock and must leave the parent's lock alone
                 nchild[0] += 1
                 cpid = 200 + nchild[0]
                 w.alive.add(cpid)
+                w.known.add(cpid)
                 w.pid_of["p%d" % cpid] = cpid
                 sim.fault("fork_child_unlocks_inherited_lock")
                 sched.spawn("p%d" % cpid, child, cpid, copy.copy(lk))
                 for _ in range(sim.draw_int(0, 2, "cs2")):
                     sched.point("critical-section")
-                    c, wit = clause("mutual-exclusion")
-                    sim.check(c, len(holders) == 1, wit or "two-holders", lambda: "processes %r are all between lock()==True and unlock()" % (holders,))
+                    exclusive()
             if deaths and sim.draw_bool(0.3, "die"):
                 sim.fault("process_death_holding_lock")
                 sim.event(pid, "DIES")
                 holders.remove(pid)
                 w.alive.discard(pid)
                 return
-            try:
-                lk.unlock()
-            except Exception as e:
-                c, wit = clause("holder-unlock-raised")
-                sim.fail(c, wit or type(e).__name__, "unlock() by the holder %d raised %r" % (pid, e))
+            release(pid, lk)
             holders.remove(pid)
             sim.event(pid, "RELEASED")
         finished.append(pid)
@@ -326,6 +433,7 @@ def run(sim):
         for i in range(nproc):
             pid = 100 + i
             w.alive.add(pid)
+            w.known.add(pid)
             w.pid_of["p%d" % pid] = pid
         for i in range(nproc):
             sched.spawn("p%d" % (100 + i), process, 100 + i, rounds, styles[i])
@@ -339,6 +447,7 @@ def run(sim):
             sim.nontrivial = False
             return
         # liveness once faults stop: nobody alive holds the lock any more, so it is free or stale.
+        w.oserr_left = 0
         sim.check("internal-no-holder-left", not holders, "", "holders %r at the end" % (holders,))
         res = {}
 
@@ -361,6 +470,7 @@ def run(sim):
                 lone_turn(pid, objs[pid], "again-%d" % pid, "survivor-reusing-its-lock-object", "process %d, reusing its lock object," % pid)
             # (b) a fresh contender with a fresh object
             w.alive.add(500)
+            w.known.add(500)
             lone_turn(500, lockfile.FilesystemLock(NAME), "locked", "", "a lone fresh contender")
 
         sched.spawn("late", late, sim.draw_perm(sorted(finished)))
@@ -375,7 +485,7 @@ def run(sim):
         sched.shutdown()
         for n, v in saved.items():
             setattr(lockfile, n, v)
-    sim.state((nproc, stale_initial, deaths, min(w.broke_stale, 2), w.race, tuple(sorted(set(styles)))))
+    sim.state((nproc, stale_initial, deaths, min(w.broke_stale, 2), w.race, tuple(sorted(set(styles))), oserr))
     sim.nontrivial = w.eexist > 0 and sim.faults.get("interleave", 0) > 0
 
 
@@ -387,4 +497,18 @@ MUTANTS = [
     "lockfile.py ESRCH branch: 'if self.clean is not None: return False' before rmlink (an object that has held the lock once never breaks a stale lock): "
     "missed by the fresh-contender-only liveness check; caught (both stale-lock-eventually-acquired witnesses)",
     "lockfile.py 'if e.errno == errno.ESRCH:' -> '... and self.clean is None:' / '... and clean:': caught (lock-raised:ProcessLookupError)",
+    "seeded C50-r4a-pid-cached-at-import (identity looked up once at import instead of per call): the first version of the check did find two holders but logged the raw link "
+    "contents, so the violation did not replay identically in a fresh interpreter (harness error, not a verdict); link contents are now named abstractly: "
+    "caught (mutual-exclusion:two-holders, holder-unlock-raised:FileNotFoundError)",
+    "seeded C50-r4b-unlock-guard-clears-locked (a failed unlock() clears the object's flag, later unlock() calls are refused): missed while no call ever failed and every holder "
+    "released once through the object it locked with; caught with the transient-OS-error family (holder-unlock-raised:ValueError) and the release-through-another-object "
+    "family (holder-unlock-raised:through-another-object-for-the-path:ValueError)",
+    "lockfile.py 'if e.errno == errno.ESRCH:' -> 'if e.errno in (errno.ESRCH, errno.EPERM):' (an owner we may not signal is taken for dead): caught with the injected EPERM "
+    "(mutual-exclusion:two-holders, holder-unlock-raised:FileNotFoundError)",
+    "lockfile.py unlock(): OSError from rmlink swallowed, locked = False anyway (holder believes it released, link stays): caught (both stale-lock-eventually-acquired witnesses)",
+    "lockfile.py pid cached on first use in a module-level list instead of os.getpid() per call: caught (mutual-exclusion:two-holders, "
+    "non-holder-unlock-removed-live-link:forked-child; some signatures do not replay in a fresh interpreter because the cache outlives a run)",
+    "lockfile.py unlock(): 'if not self.locked: raise ValueError' alone: caught (holder-unlock-raised:through-another-object-for-the-path:ValueError)",
+    "lockfile.py lock(): an unexpected readlink error / an EIO from the stale-breaking rmlink answered with 'continue' instead of raise: NOT caught, deliberately - lock() then "
+    "simply tries again, which the statement allows",
 ]
